@@ -147,6 +147,40 @@ def check_case(case):
         for kind, r in qres[1:]:
             if not all(_close(a, b, 1e-12) for a, b in zip(r, qres[0][1])):
                 fails.append(f"Quantile with fixed seed differs between {qres[0][0]} and {kind}")
+        # the variant column as a categorical / dictionary type whose category order is NOT the order of first appearance
+        # (plus an unused category): the same rows, so the same results as with plain strings
+        if case["id_kind"] == "str":
+            import pandas as pd
+            import polars as pl
+            import pyarrow as pa
+            cats = list(reversed(ids)) + ["unused"]
+
+            def categorical(kind):
+                if kind == "pandas-categorical":
+                    df = pd.DataFrame(data)
+                    df["variant"] = pd.Categorical(df["variant"], categories=cats)
+                    return df
+                if kind == "polars-enum":
+                    return pl.DataFrame(data).with_columns(pl.col("variant").cast(pl.Enum(cats)))
+                if kind == "polars-categorical":
+                    return pl.DataFrame(data).with_columns(pl.col("variant").cast(pl.Categorical))
+                t = pa.table(data)
+                idx = pa.array([cats.index(v) for v in data["variant"]], type=pa.int32())
+                return t.set_column(t.schema.get_field_index("variant"), "variant",
+                                    pa.DictionaryArray.from_arrays(idx, pa.array(cats)))
+            mref = tuple(tt.Mean("x", "y").analyze(B.make_table("pandas", data), ids[0], ids[1], "variant"))
+            for kind in ("pandas-categorical", "polars-enum", "polars-categorical", "pyarrow-dictionary"):
+                q = tt.Quantile("x", 0.5, n_resamples=50, random_state=123)
+                r = tuple(q.analyze(categorical(kind), ids[0], ids[1], "variant"))
+                if not all(_close(a, b, 1e-12) for a, b in zip(r, qres[0][1])):
+                    fails.append(f"{kind}: Quantile differs from the same rows with a plain string variant column")
+                m = tuple(tt.Mean("x", "y").analyze(categorical(kind), ids[0], ids[1], "variant"))
+                if not all(_close(a, b, 1e-9) for a, b in zip(m, mref)):
+                    fails.append(f"{kind}: Mean differs from the same rows with a plain string variant column")
+                e = tt.Experiment(m=tt.Mean("x"), q=tt.Quantile("x", 0.5, n_resamples=50, random_state=123)).analyze(
+                    categorical(kind), control=ids[0], all_variants=True)
+                if [tuple(map(str, k)) for k in e] != [(ids[0], t) for t in ids[1:]]:
+                    fails.append(f"{kind}: pairs {list(e)}")
     finally:
         B.cleanup()
     return fails
